@@ -9,9 +9,9 @@ Import ListNotations.
    allocation has exactly num servers, pairwise distinct, each a current candidate (healthy with room), none
    among the existing holders or the servers being replaced *)
 Theorem alloc_sound :
-  forall idx cands num existing down o perms R,
+  forall idx cands num exchains existing down o perms R,
     Forall (level_ok cands) idx ->
-    allocate idx num existing down o perms = Some R ->
+    allocate idx num exchains existing down o perms = Some R ->
     length R = num /\ NoDup R /\
     (forall r, In r R -> In r cands /\ ~ In r existing /\ ~ In r down).
 Proof. exact alloc_sound_lemma. Qed.
@@ -20,9 +20,9 @@ Print Assumptions alloc_sound.
 (* [FULL] all-or-nothing: either nothing is allocated or exactly the requested number (no partial result),
    with no hypothesis on the index at all *)
 Theorem alloc_all_or_nothing :
-  forall idx num existing down o perms,
-    allocate idx num existing down o perms = None \/
-    exists R, allocate idx num existing down o perms = Some R /\ length R = num.
+  forall idx num exchains existing down o perms,
+    allocate idx num exchains existing down o perms = None \/
+    exists R, allocate idx num exchains existing down o perms = Some R /\ length R = num.
 Proof. exact alloc_all_or_nothing_lemma. Qed.
 Print Assumptions alloc_all_or_nothing.
 
@@ -35,39 +35,30 @@ Print Assumptions build_index_wf.
 
 (* [FULL] the whole path monitor data -> reverse index -> allocation, judged by the decidable specification
    alloc_verdict that the harness applies to the real allocateTS: for every uniform topology, every candidate
-   order (map iteration), every existing set made of candidates, every down set, count, random draws and level
-   orders, a returned allocation satisfies every clause, including the per-level spread clause on nested
-   forests (pairwise distinct holder-free domains, or every eligible domain of the level served) *)
+   order (map iteration), every existing set known to the failure-domain service (candidates or not: full and
+   unhealthy holders included), every down set, count, random draws and level orders, a returned allocation
+   satisfies every clause, including the per-level spread clause on nested forests (pairwise distinct
+   holder-free domains, or every eligible domain of the level served) *)
 Theorem alloc_meets_spec :
   forall topo cands cands' ex0 down num o perms R,
     topo_uniform topo = true -> (forall h, In h cands -> In h (map (hd 0%N) topo)) -> NoDup cands ->
     Permutation cands' cands ->
-    all_existing_visible cands ex0 = true ->
-    allocate (build_index (map (chain_of topo) cands')) num ex0 down o perms = Some R ->
+    (forall e, In e ex0 -> In e (map (hd 0%N) topo)) ->
+    allocate (build_index (map (chain_of topo) cands')) num (map (chain_of topo) ex0) ex0 down o perms = Some R ->
     alloc_verdict topo cands ex0 down num false (Some R) = V_OK.
 Proof. exact verdict_some_ok. Qed.
 Print Assumptions alloc_meets_spec.
 
-(* [FULL] without the hypothesis that existing holders are candidates, the only clause that can fail is the
-   spread clause, and the specification reports it under its own code *)
-Theorem alloc_meets_spec_any_existing :
-  forall topo cands cands' ex0 down num o perms R,
-    topo_uniform topo = true -> (forall h, In h cands -> In h (map (hd 0%N) topo)) -> NoDup cands ->
-    Permutation cands' cands ->
-    allocate (build_index (map (chain_of topo) cands')) num ex0 down o perms = Some R ->
-    alloc_verdict topo cands ex0 down num false (Some R) = V_OK \/
-    (alloc_verdict topo cands ex0 down num false (Some R) = V_SPREAD_HIDDEN_EXISTING /\
-     all_existing_visible cands ex0 = false).
-Proof. exact verdict_some_any. Qed.
-Print Assumptions alloc_meets_spec_any_existing.
-
-(* [REFUTED] spread over failure domains fails when an existing holder is healthy-but-full, hence absent from the
-   reverse index: concrete monitor state, topology and draws for which the allocation lands in the holder's rack
-   although another rack has room; replayed on the real code by the harness as verdict 7 *)
-Theorem alloc_spread_hidden_existing_refuted :
-  exists topo cfg tss num existing down o perms R,
+(* [REFUTED] the allocation algorithm WITHOUT the explicit failure-domain lookup for existing holders (the code
+   before the repair; exchains = nil) violates the spread clause when a holder is healthy-but-full and hence
+   absent from the reverse index: concrete monitor state, topology and draws for which the allocation lands in
+   the holder's rack although another rack has room, while the repaired algorithm picks the other rack *)
+Theorem alloc_spread_needs_domain_lookup_refuted :
+  exists topo cfg tss num existing down o perms R R',
     topo_uniform topo = true /\ topo_nested topo = true /\
-    allocate_from_monitor cfg tss topo [] num existing down o perms = Some R /\
-    alloc_verdict topo (candidates cfg tss) existing down num false (Some R) = V_SPREAD_HIDDEN_EXISTING.
+    allocate (build_index (map (chain_of topo) (candidates cfg tss))) num [] existing down o perms = Some R /\
+    alloc_verdict topo (candidates cfg tss) existing down num false (Some R) = V_SPREAD_HIDDEN_EXISTING /\
+    allocate_from_monitor cfg tss topo [] num existing down o perms = Some R' /\
+    alloc_verdict topo (candidates cfg tss) existing down num false (Some R') = V_OK.
 Proof. exact hidden_existing_witness. Qed.
-Print Assumptions alloc_spread_hidden_existing_refuted.
+Print Assumptions alloc_spread_needs_domain_lookup_refuted.
